@@ -79,13 +79,13 @@ fn part_r_i(r: &Rec, conv: &str) -> String {
 pub fn u_form(r: &mut Rec, k: u64) {
     match k % 26 {
         0 => r.x(part("qr")).uu2("div_rem", "integer_method", 0, 1, 2, 3, |a, b| a.div_rem(b)),
-        1 => r.x(part("q")).uu("div", "val_val", 0, 1, 2, |a, b| a.clone() / b.clone()),
+        1 => r.x(part("q")).uu("div", "val_val", 0, 1, 2, |a, b| a.roomy() / b.roomy()),
         2 => r.x(part("q")).uu("div", "ref_ref", 0, 1, 2, |a, b| a / b),
-        3 => r.x(part("q")).uu("div", "val_ref", 0, 1, 2, |a, b| a.clone() / b),
-        4 => r.x(part("q")).uu("div", "ref_val", 0, 1, 2, |a, b| a / b.clone()),
+        3 => r.x(part("q")).uu("div", "val_ref", 0, 1, 2, |a, b| a.roomy() / b),
+        4 => r.x(part("q")).uu("div", "ref_val", 0, 1, 2, |a, b| a / b.roomy()),
         5 => {
             let p = part_r_u(r, "trunc");
-            r.x(p).uu("rem", "val_val", 0, 1, 2, |a, b| a.clone() % b.clone())
+            r.x(p).uu("rem", "val_val", 0, 1, 2, |a, b| a.roomy() % b.roomy())
         }
         6 => {
             let p = part_r_u(r, "trunc");
@@ -93,11 +93,11 @@ pub fn u_form(r: &mut Rec, k: u64) {
         }
         7 => {
             let p = part_r_u(r, "trunc");
-            r.x(p).uu("rem", "val_ref", 0, 1, 2, |a, b| a.clone() % b)
+            r.x(p).uu("rem", "val_ref", 0, 1, 2, |a, b| a.roomy() % b)
         }
         8 => {
             let p = part_r_u(r, "trunc");
-            r.x(p).uu("rem", "ref_val", 0, 1, 2, |a, b| a % b.clone())
+            r.x(p).uu("rem", "ref_val", 0, 1, 2, |a, b| a % b.roomy())
         }
         9 => {
             r.clone_u(0, 2);
@@ -105,7 +105,7 @@ pub fn u_form(r: &mut Rec, k: u64) {
         }
         10 => {
             r.clone_u(0, 2);
-            r.x(part("q")).u_assign("div", "assign_val", 2, 1, |d, s| *d /= s.clone())
+            r.x(part("q")).u_assign("div", "assign_val", 2, 1, |d, s| *d /= s.roomy())
         }
         11 => {
             r.clone_u(0, 2);
@@ -115,7 +115,7 @@ pub fn u_form(r: &mut Rec, k: u64) {
         12 => {
             r.clone_u(0, 2);
             let p = part_r_u(r, "trunc");
-            r.x(p).u_assign("rem", "assign_val", 2, 1, |d, s| *d %= s.clone())
+            r.x(p).u_assign("rem", "assign_val", 2, 1, |d, s| *d %= s.roomy())
         }
         13 => r.x(part("q")).uu("div_floor", "integer_method", 0, 1, 2, |a, b| a.div_floor(b)),
         14 => {
@@ -143,7 +143,7 @@ pub fn u_form(r: &mut Rec, k: u64) {
         24 => r.x(part_r_u(r, "trunc")).op("is_multiple_of", "integer_method", &[u(0), u(1)], &[], "\"ty\":\"U\"", |g| {
             Ret::none().b(g.u[0].is_multiple_of(&g.u[1]))
         }),
-        _ => r.x(part("qr")).uu2("div_rem", "ops_pair", 0, 1, 2, 3, |a, b| (a.clone() / b.clone(), a % b)),
+        _ => r.x(part("qr")).uu2("div_rem", "ops_pair", 0, 1, 2, 3, |a, b| (a.roomy() / b.roomy(), a % b)),
     };
 }
 pub const U_FORMS: u64 = 26;
@@ -151,13 +151,13 @@ pub const U_FORMS: u64 = 26;
 pub fn i_form(r: &mut Rec, k: u64) {
     match k % 26 {
         0 => r.x(part("qr")).ii2("div_rem", "integer_method", 0, 1, 2, 3, |a, b| a.div_rem(b)),
-        1 => r.x(part("q")).ii("div", "val_val", 0, 1, 2, |a, b| a.clone() / b.clone()),
+        1 => r.x(part("q")).ii("div", "val_val", 0, 1, 2, |a, b| a.roomy() / b.roomy()),
         2 => r.x(part("q")).ii("div", "ref_ref", 0, 1, 2, |a, b| a / b),
-        3 => r.x(part("q")).ii("div", "val_ref", 0, 1, 2, |a, b| a.clone() / b),
-        4 => r.x(part("q")).ii("div", "ref_val", 0, 1, 2, |a, b| a / b.clone()),
+        3 => r.x(part("q")).ii("div", "val_ref", 0, 1, 2, |a, b| a.roomy() / b),
+        4 => r.x(part("q")).ii("div", "ref_val", 0, 1, 2, |a, b| a / b.roomy()),
         5 => {
             let p = part_r_i(r, "trunc");
-            r.x(p).ii("rem", "val_val", 0, 1, 2, |a, b| a.clone() % b.clone())
+            r.x(p).ii("rem", "val_val", 0, 1, 2, |a, b| a.roomy() % b.roomy())
         }
         6 => {
             let p = part_r_i(r, "trunc");
@@ -165,11 +165,11 @@ pub fn i_form(r: &mut Rec, k: u64) {
         }
         7 => {
             let p = part_r_i(r, "trunc");
-            r.x(p).ii("rem", "val_ref", 0, 1, 2, |a, b| a.clone() % b)
+            r.x(p).ii("rem", "val_ref", 0, 1, 2, |a, b| a.roomy() % b)
         }
         8 => {
             let p = part_r_i(r, "trunc");
-            r.x(p).ii("rem", "ref_val", 0, 1, 2, |a, b| a % b.clone())
+            r.x(p).ii("rem", "ref_val", 0, 1, 2, |a, b| a % b.roomy())
         }
         9 => {
             r.clone_i(0, 2);
@@ -177,7 +177,7 @@ pub fn i_form(r: &mut Rec, k: u64) {
         }
         10 => {
             r.clone_i(0, 2);
-            r.x(part("q")).i_assign("div", "assign_val", 2, 1, |d, s| *d /= s.clone())
+            r.x(part("q")).i_assign("div", "assign_val", 2, 1, |d, s| *d /= s.roomy())
         }
         11 => {
             r.clone_i(0, 2);
@@ -187,7 +187,7 @@ pub fn i_form(r: &mut Rec, k: u64) {
         12 => {
             r.clone_i(0, 2);
             let p = part_r_i(r, "trunc");
-            r.x(p).i_assign("rem", "assign_val", 2, 1, |d, s| *d %= s.clone())
+            r.x(p).i_assign("rem", "assign_val", 2, 1, |d, s| *d %= s.roomy())
         }
         13 => r.x(part("q")).ii("div_floor", "integer_method", 0, 1, 2, |a, b| a.div_floor(b)),
         14 => {
@@ -215,7 +215,7 @@ pub fn i_form(r: &mut Rec, k: u64) {
         24 => r.x(part_r_i(r, "trunc")).op("is_multiple_of", "integer_method", &[i(0), i(1)], &[], "\"ty\":\"I\"", |g| {
             Ret::none().b(g.i[0].is_multiple_of(&g.i[1]))
         }),
-        _ => r.x(part("qr")).ii2("div_rem", "ops_pair", 0, 1, 2, 3, |a, b| (a.clone() / b.clone(), a % b)),
+        _ => r.x(part("qr")).ii2("div_rem", "ops_pair", 0, 1, 2, 3, |a, b| (a.roomy() / b.roomy(), a % b)),
     };
 }
 
@@ -266,18 +266,18 @@ fn scalar_forms(r: &mut Rec, rng: &mut Rng) {
             });
         };
     }
-    q_rc!("val_u32", s32, |g| g.u[0].clone() / s32);
+    q_rc!("val_u32", s32, |g| g.u[0].roomy() / s32);
     q_rc!("ref_u64", s64, |g| &g.u[0] / s64);
-    q_rc!("val_u128", s128, |g| g.u[0].clone() / s128);
+    q_rc!("val_u128", s128, |g| g.u[0].roomy() / s128);
     r_rc!("ref_u32", s32, |g| &g.u[0] % s32);
-    r_rc!("val_u64", s64, |g| g.u[0].clone() % s64);
-    r_rc!("val_u128", s128, |g| g.u[0].clone() % s128);
-    q_cr!("u32_val", s32, |g| s32 / g.u[0].clone());
-    q_cr!("u64_val", s64, |g| s64 / g.u[0].clone());
+    r_rc!("val_u64", s64, |g| g.u[0].roomy() % s64);
+    r_rc!("val_u128", s128, |g| g.u[0].roomy() % s128);
+    q_cr!("u32_val", s32, |g| s32 / g.u[0].roomy());
+    q_cr!("u64_val", s64, |g| s64 / g.u[0].roomy());
     q_cr!("u128_ref", s128, |g| s128 / &g.u[0]);
     r_cr!("u32_ref", s32, |g| s32 % &g.u[0]);
-    r_cr!("u64_val", s64, |g| s64 % g.u[0].clone());
-    r_cr!("u128_val", s128, |g| s128 % g.u[0].clone());
+    r_cr!("u64_val", s64, |g| s64 % g.u[0].roomy());
+    r_cr!("u128_val", s128, |g| s128 % g.u[0].roomy());
 }
 
 const SIGNS: [(Sign, Sign); 4] = [(Sign::Plus, Sign::Plus), (Sign::Plus, Sign::Minus), (Sign::Minus, Sign::Plus), (Sign::Minus, Sign::Minus)];
